@@ -19,6 +19,8 @@
 (*                                                                         *)
 (* `relate` events then decide relations between stored evaluations:       *)
 (*   nest     Norm(history A) = Norm(history B) and the spectra coincide   *)
+(*   alike    the same for one model called with the same values in        *)
+(*            another container / number type                              *)
 (*   differs  changing one parameter changes the normal form               *)
 (*   swap     label-swap equivariance as a refinement between two          *)
 (*            time-step scales: e2 <= SwapRatio*e1 + SwapFloor*scale       *)
@@ -240,6 +242,11 @@ FRelate ==
             IF ~(Have(e.a) /\ Have(e.b)) THEN {"NestingPairNotEvaluated"}
             ELSE F("NestedProgramsCoincide", saved[e.a].norm = saved[e.b].norm) \cup
                  F("NestedSpectraCoincide", SameSpectrum(saved[e.a].out, saved[e.b].out))
+      \* the same parameter values handed over in another container / number type (list, array, int, numpy.float64)
+      [] e.kind = "alike" ->
+            IF ~(Have(e.a) /\ Have(e.b)) THEN {"EquivalentCallNotEvaluated"}
+            ELSE F("EquivalentArgumentsSameProgram", saved[e.a].norm = saved[e.b].norm) \cup
+                 F("EquivalentArgumentsSameSpectrum", SameSpectrum(saved[e.a].out, saved[e.b].out))
       [] e.kind = "differs" ->
             IF ~(Have(e.a) /\ Have(e.b)) THEN {"PerturbedPairNotEvaluated"}
             ELSE F("ParameterInfluencesProgram:" \o e.name, saved[e.a].norm # saved[e.b].norm)
